@@ -1,5 +1,5 @@
 (* C09 — Key lookups return the last live message with exactly that key. *)
-From KV Require Import Base Model Spec LogInv GetProofs ConsumeProofs History KeyProofs KeyInv KeyConsume.
+From KV Require Import Base Model Spec LogInv GetProofs ConsumeProofs History KeyProofs KeyInv KeyConsume OffsetProofs.
 
 (* For EVERY hash function H (in particular one under which all keys collide): on any state of a session
    with the key index, GetByKey returns the live message with the greatest offset whose key is byte for byte
@@ -48,3 +48,16 @@ Theorem C09_lookups_preserve :
   Inv st -> log_get_by_key H st k = Ok (st1, m) -> Inv st1 /\ abs st1 = abs st /\ opened st1 = opened st.
 Proof. exact ReadsPreserve.log_get_by_key_preserves. Qed.
 Print Assumptions C09_lookups_preserve.
+
+(* OffsetByKey (log.go: GetByKey, then the offset of what it found): the offset of the last live message with exactly
+   that key; ErrNotFound exactly when there is none; ErrNoIndex without the key index - for every hash function *)
+Theorem C09_offset_by_key :
+  forall (H : bytes -> Z) c st k,
+  KInv H (cparams c) st -> opened st = Some c ->
+  match log_offset_by_key H st k with
+  | Ok (_, o) => ckeys c = true /\ option_map moff (last_opt (filter (has_key k) (live (abs st)))) = Some o
+  | Err e => if ckeys c then last_opt (filter (has_key k) (live (abs st))) = None /\ classify e = CNotFound
+             else classify e = CNoIndex
+  end.
+Proof. exact OffsetProofs.log_offset_by_key_correct. Qed.
+Print Assumptions C09_offset_by_key.
